@@ -312,6 +312,77 @@ def body(data) -> Outcome:
                 except Exception as e:
                     out.fail(exc_bucket(e, "history-outside-value-raised"), exc_detail(e))
 
+    # ---- (d) inside ONE open block: request, evaluate, then a second request that differs in one root value: the
+    # nodes that do not depend on that root are memoised (and already evaluated); every function node of the graph
+    # must still have an in-edge from each of its producers
+    t = targets[(pick >> 2) % len(targets)]
+    roots_t = m.needed_roots(t)
+    if roots_t and (pick >> 10) % 2:
+        r_var = roots_t[(pick >> 11) % len(roots_t)]
+        kw1 = {r: f"V{r}~d" for r in roots_t}
+        kw2 = dict(kw1, **{r_var: f"V{r_var}~d2"})
+        units += 1
+        del log[:]
+        try:
+            want1, _, _, _, calls1, _ = m.evaluate(t, kw1)
+            want2, _, _, _, calls2, _ = m.evaluate(t, kw2)
+            p = build_pipeline(prog, log, lazy=True, cache_type=None)
+            with construct_dag() as tg:
+                a = p(t, **kw1)
+                va = a.evaluate()
+                b = p(t, **kw2)
+            vb = b.evaluate()
+            out.labels.append("history:evaluate-inside-an-open-block")
+            if va != want1 or vb != want2:
+                out.fail("history-open-block-value", f"got {va!r}, {vb!r} want {want1!r}, {want2!r}")
+            g = tg.graph
+            fname = {nid: lf.func.__name__ for nid, lf in tg.mapping.items() if isinstance(lf.func, PipeFunc)}
+            pick_src = {nid: [x._id for x in lf.args if _is_lazy(x)] for nid, lf in tg.mapping.items() if not isinstance(lf.func, PipeFunc)}
+            executed = {c[0] for c in calls1} | {c[0] for c in calls2}
+            for nid, f in fname.items():
+                srcs = set()
+                for pred in g.predecessors(nid):
+                    for x in (pick_src.get(pred) or [pred]):
+                        if x in fname:
+                            srcs.add(fname[x])
+                missing = (m.deps(f) & executed) - srcs
+                if missing:
+                    out.fail("history-open-block-graph-edge-missing", f"node {f} has no edge from {sorted(missing)}; edges {sorted(g.edges)}")
+                    break
+        except Exception as e:
+            out.fail(exc_bucket(e, "history-open-block-raised"), exc_detail(e))
+
+    # ---- (e) a block whose body raises: afterwards no task graph is active and nothing of the block is reused --------
+    if (pick >> 12) % 2 and not isinstance(t, tuple):
+        from pipefunc.lazy import task_graph
+
+        kw = {r: f"V{r}~e" for r in roots_t}
+        units += 1
+        try:
+            p = build_pipeline(prog, log, lazy=True, cache_type=None)
+            try:
+                with construct_dag():
+                    p(t, **kw)
+                    raise KeyboardInterrupt  # anything the body of the block may raise
+            except KeyboardInterrupt:
+                pass
+            out.labels.append("history:block-left-by-an-exception")
+            if task_graph() is not None:
+                out.fail("history-block-exception-task-graph-still-active", "")
+            m2 = DagModel(prog, version="v2")
+            want_v2 = m2.evaluate(t, kw)[0]
+            del log[:]
+            p2 = build_pipeline(prog, log, version="v2", lazy=True, cache_type=None)
+            got = p2(t, **kw).evaluate()
+            if got != want_v2:
+                out.fail("history-block-exception-later-pipeline-gets-nodes-of-the-dead-block", f"got {got!r} want {want_v2!r}")
+        except Exception as e:
+            out.fail(exc_bucket(e, "history-block-exception-raised"), exc_detail(e))
+        finally:
+            import pipefunc.lazy as _lz
+
+            _lz._TASK_GRAPH = None  # keep a leaked graph from spoiling the rest of this process
+
     # ---- a failing node: evaluate() must behave like the eager call, also when evaluated again ---------------------
     ti = pick % len(targets)
     t = targets[ti]
